@@ -43,7 +43,12 @@ def run(ctx):
                 configs.append({"iface": iface, "shuffle": shuffle, "fp": fp, "repeat": False})
     configs += [{"iface": i, "shuffle": s, "fp": 2, "repeat": False, "process_record": True}
                 for i in ifaces for s in (0, 2)]
-    R.run_grid(ctx, "C02", "bag", configs, lockstep=ifaces)
+    # a consumer that is busy for a while in the middle of a pass (all read-ahead threads idle meanwhile)
+    stalled = [{"iface": i, "shuffle": s, "fp": f, "repeat": False, "stall": st}
+               for i, s, f, st in (("concurrent", 3, 2, (2, 1.3)), ("concurrent", 0, 2, (5, 1.3)),
+                                   ("concurrent", 4, 1, (1, 1.3)), ("rust", 2, 2, (3, 1.3)), ("async", 2, 2, (3, 1.3)),
+                                   ("tfdata", 2, 2, (3, 1.3)), ("numpy", 2, 1, (3, 0.3)))]
+    R.run_grid(ctx, "C02", "bag", configs, lockstep=ifaces, many_shards_configs=stalled)
 
 
 def replay(ctx, body):
